@@ -36,7 +36,8 @@ ASSUMPTIONS = [
 ]
 
 KINDS = ["echo", "echo", "notify", "batch", "invalid", "boom", "slow", "boom-kw", "boomtype", "boomtype-kw", "echo-kw",
-         "abort-connect", "abort-headers", "abort-body", "abort-noread", "abort-noread-batch", "abort-chunked", "abort-expect"]
+         "abort-connect", "abort-headers", "abort-body", "abort-noread", "abort-noread-batch", "abort-chunked", "abort-expect",
+         "held-wrong-path", "held-bad-encoding"]
 SERVERS = [("simple", None), ("pooled", None), ("pooled", 1), ("pooled", 2), ("pooled", 5)]
 
 
@@ -189,8 +190,8 @@ KNOWN_HANG = ("C12/pooled.server_close-without-serve_forever",
               "PooledJSONRPCServer.server_close() on a server that never entered serve_forever blocks forever in BaseServer.shutdown()")
 
 
-def stop_server(w, served, label):
-    """shutdown() + server_close() (or server_close() alone) under a watchdog"""
+def stop_server(w, served, label, pause=0.0):
+    """shutdown() + server_close() (or server_close() alone) under a watchdog; `pause` seconds may pass between the two"""
     from vlib.netpeer import Hang, call_with_watchdog
 
     if w.kind == "pooled" and not served and _known_hang_seen[0]:
@@ -214,6 +215,8 @@ def stop_server(w, served, label):
         try:
             if served:
                 w.server.shutdown()
+                if pause:
+                    time.sleep(pause)
             w.server.server_close()
         except Exception as ex:
             raised.append(ex)
@@ -233,6 +236,14 @@ def stop_server(w, served, label):
             fail("C12/stop-hangs:joining-idle-worker", "stopping the server is still joining a worker thread after %d s although no request is being executed" % (20 if served else 10),
                  {"stacks": h.stacks})
         raise Skip()   # R11: inconclusive slowness
+    # what is still alive / being executed at the moment the stop returns (before anything else is waited for)
+    alive_at_return, executing_at_return = [], 0
+    if pool0 is not None and not raised:
+        executing_at_return = w.executing[0]
+        deadline = time.time() + 0.05
+        while time.time() < deadline and any(t.is_alive() for t in workers_before):
+            time.sleep(0.005)
+        alive_at_return = [t.name for t in workers_before if t.is_alive()]
     if raised:
         fail("C12/stop-raised:%s" % type(raised[0]).__name__, "stopping the server raised %s: %s (listening socket %s)" % (
             type(raised[0]).__name__, raised[0], "still open" if w.server.socket.fileno() != -1 else "closed"))
@@ -246,12 +257,7 @@ def stop_server(w, served, label):
     if pool is not None:
         # stop() joins its workers: when server_close() returns they have terminated and no request is
         # being executed any more (a moment of grace for the interpreter's own thread bookkeeping)
-        workers = workers_before
-        executing = w.executing[0]
-        deadline = time.time() + 0.05
-        while time.time() < deadline and any(t.is_alive() for t in workers):
-            time.sleep(0.005)
-        alive = [t.name for t in workers if t.is_alive()]
+        alive, executing = alive_at_return, executing_at_return
         if alive:
             fail("C12/pool-workers-alive", "request-pool workers still alive after server_close() returned: %r (%d requests were still being executed)" % (alive, executing))
 
@@ -313,6 +319,35 @@ def abort_request(w, k, tok):
         s.close()
 
 
+def held_request(w, k, tok, held, errors):
+    """A request the server answers with an HTTP error of its own (a path that is no RPC path: 404; a content encoding it
+    does not know: 501) from a client that reads the answer and keeps its connection open, as every keep-alive HTTP
+    client does.  The connection is closed only when the client has finished all its other requests."""
+    s = raw_connect(w)
+    held.append(s)
+    body = json.dumps({"jsonrpc": "2.0", "id": tok, "method": "echo", "params": ["held-" + tok]}).encode("utf-8")
+    if k == "held-wrong-path":
+        head = "POST /no/such/path HTTP/1.1\r\nHost: x\r\nContent-Type: application/json-rpc\r\nContent-Length: %d\r\n\r\n" % len(body)
+    else:
+        head = "POST / HTTP/1.1\r\nHost: x\r\nContent-Type: application/json-rpc\r\nContent-Encoding: x-verif\r\nContent-Length: %d\r\n\r\n" % len(body)
+    s.sendall(head.encode("ascii") + body)
+    s.settimeout(10)
+    data = b""
+    try:
+        while b"\r\n\r\n" not in data:
+            b = s.recv(4096)
+            if not b:
+                break
+            data += b
+    except socket.timeout:
+        errors.append(("C12/client-hangs", "no answer to a %s request within 10 s" % k))
+        return
+    status = data.split(b"\r\n", 1)[0].decode("latin-1")
+    parts = status.split()
+    if len(parts) < 2 or not parts[1].isdigit() or not 400 <= int(parts[1]) < 600:
+        errors.append(("C12/http-error-reply", "a %s request was answered %r" % (k, status)))
+
+
 def raw_call(w, body):
     """One HTTP exchange over a raw socket -> (status line, decoded JSON body or None)"""
     s = raw_connect(w)
@@ -333,11 +368,25 @@ def raw_call(w, body):
 
 def raw_client_run(w, ci, kinds, errors, sent_marks, sent_echo):
     """The subset of client_run a raw-socket client can do (listeners the library's client cannot address)"""
+    held = []
+    try:
+        _raw_client_run(w, ci, kinds, errors, sent_marks, sent_echo, held)
+    finally:
+        for s_ in held:
+            try:
+                s_.close()
+            except OSError:
+                pass
+
+
+def _raw_client_run(w, ci, kinds, errors, sent_marks, sent_echo, held):
     for j, k in enumerate(kinds):
         tok = "c%d-r%d-%d" % (ci, j, os.getpid())
         try:
             if k.startswith("abort"):
                 abort_request(w, k, tok)
+            elif k.startswith("held"):
+                held_request(w, k, tok, held, errors)
             elif k == "notify":
                 sent_marks.append(tok)
                 status, out = raw_call(w, json.dumps({"jsonrpc": "2.0", "method": "mark", "params": [tok]}))
@@ -363,12 +412,15 @@ def client_run(w, ci, kinds, errors, sent_marks, sent_echo, timeout=30, sent_boo
         return raw_client_run(w, ci, kinds, errors, sent_marks, sent_echo)
     sent_boom = sent_boom if sent_boom is not None else []
     p = J.ServerProxy(w.url)
+    held = []
     try:
         for j, k in enumerate(kinds):
             tok = "c%d-r%d-%d" % (ci, j, os.getpid())
             try:
                 if k.startswith("abort"):
                     abort_request(w, k, tok)
+                elif k.startswith("held"):
+                    held_request(w, k, tok, held, errors)
                 elif k in ("boom-kw", "boomtype", "boomtype-kw"):
                     sent_boom.append(tok)
                     m = getattr(p, k.split("-")[0])
@@ -422,6 +474,11 @@ def client_run(w, ci, kinds, errors, sent_marks, sent_echo, timeout=30, sent_boo
             p("close")()
         except Exception:
             pass
+        for s_ in held:
+            try:
+                s_.close()
+            except OSError:
+                pass
 
 
 @st.composite
@@ -637,7 +694,8 @@ def long_inflight_cases(tier):
     """A request that is still being executed long after the stop began: longer than the user pool's (short) queue
     timeout and than the 3 s interval at which stop() looks at its workers.  Real time - a handful of cases only."""
     yield {"pool": 2, "family": "tcp", "pool_timeout": 0.3, "request_s": 3.6, "others": 1}
-    yield {"pool": 1, "family": "unix", "pool_timeout": 1, "request_s": 4.2, "others": 0}
+    # the caller does something else between shutdown() and server_close()
+    yield {"pool": 1, "family": "unix", "pool_timeout": 1, "request_s": 4.2, "others": 0, "pause": 0.6}
     if tier == "thorough":
         yield {"pool": 3, "family": "tcp", "pool_timeout": 2, "request_s": 6.5, "others": 2}
         yield {"pool": 2, "family": "unix", "pool_timeout": 0.05, "request_s": 9.5, "others": 1}
@@ -671,7 +729,7 @@ def oracle_long_inflight(case):
         time.sleep(0.01)
     began = time.time()
     # R16: when shutdown() + server_close() have returned no request is being executed and the pool's workers are dead
-    stop_server(w, True, "long-inflight")
+    stop_server(w, True, "long-inflight", pause=case.get("pause", 0.0))
     took = time.time() - began
     if w.executing[0]:
         fail("C12/pool-workers-alive", "server_close() returned after %.1f s while %d request(s) were still being executed" % (took, w.executing[0]))
